@@ -439,6 +439,9 @@ func (x *Exec) Run(lines []string) {
 					x.Node.blk.res = append(x.Node.blk.res, res)
 				}
 			}
+			if result == "R panic" {
+				x.Flag("C17-handler-panic", "delivering a transaction made the application panic (recovered by baseapp): the handler or the stateless checks of one of its messages are not total")
+			}
 			if x.cur.SigMod != "" && strings.HasPrefix(result, "R ok") {
 				x.Flag("C14-signature-not-bound", "a transaction was accepted although its signatures were made over a different sign document ("+x.cur.SigMod+")")
 				x.Flag("C02-writer-signed", "a transaction was accepted although its signatures are not signatures over it ("+x.cur.SigMod+")")
@@ -1032,6 +1035,11 @@ func (x *Exec) pageWalk(f []string) {
 		if af[1] != "ok" {
 			if ans == "Q panic" {
 				x.Flag("C17-query-panic", "paging through "+kind+" panicked")
+			}
+			if strings.HasPrefix(ans, "Q err 13") {
+				// a well-formed page request (nil key or the key the previous page handed out, never key and offset together)
+				// must be answered: an internal error hides the items from the listing
+				x.Flag("C13-paging", fmt.Sprintf("paging %s (limit %s, reverse %s, %s style, step %d) failed with an internal error after %d items", kind, limit, rev, style, step, len(got)))
 			}
 			return
 		}
